@@ -256,6 +256,9 @@ impl TransportVisitor for V {
             for j in 0..held {
                 menu.push((5, j, 0));
             }
+            if used_order.is_empty() && !nb.is_empty() {
+                menu.push((9, 0, 0)); // poll a transfer the device has not completed yet
+            }
             if !used_order.is_empty() {
                 menu.push((6, 0, 0));
                 if nb.len() > 1 {
@@ -425,6 +428,14 @@ impl TransportVisitor for V {
                         (Some(S_OK), Ok(Ok(()))) => {}
                         (Some(s_), Ok(Err(_))) if s_ != S_OK => {}
                         (s_, r_) => viol("status-check", format!("pcm_xfer_ok({}) -> {:?} although the device reported status {:#x?} for that transfer", tok, r_, s_)),
+                    }
+                }
+                9 => {
+                    let tok = nb[0].0;
+                    let r = crate::util::catch(|| snd.pcm_xfer_ok(tok));
+                    tag("snd:pcm_xfer_ok-early");
+                    if !matches!(r, Ok(Err(Error::NotReady))) {
+                        viol("early-poll", format!("pcm_xfer_ok({}) before the device completed anything -> {:?}, expected NotReady", tok, r));
                     }
                 }
                 7 => {
